@@ -26,9 +26,9 @@ from types import SimpleNamespace
 import numpy as np
 
 PROP = 'C12'
-TARGETS = ['T6', 'T7a', 'T7b', 'T7c', 'T7d', 'T7e', 'T7f', 'T7g', 'T7h', 'T7i']
+TARGETS = ['T6', 'T7a', 'T7b', 'T7c', 'T7d', 'T7e', 'T7f', 'T7g', 'T7h', 'T7i', 'T7j']
 LEAN_MODULES = ['HdVerif.Props.C12']
-MODEL_MODULES = ['HdVerif.Model.TilingJson']
+MODEL_MODULES = ['HdVerif.Model.TilingJson', 'HdVerif.Model.TilingSlideJson']
 NAMESPACE = 'HdVerif.C12'
 DRIVER = 'Drivers/C12.lean'
 RULE = ('one case = one helper evaluated on one (matrix rows, matrix columns, tile rows, tile columns[, geometry, channels, focal '
@@ -537,6 +537,22 @@ def _datasets(ctx, reqs, pending):
             if len(got2) != len(val) or any(a[:2] != (x[2], x[3]) or not close(a[2:], x[4:], False) for a, x in zip(got2, val)):
                 ctx.fail(case, {'helper': 'compute_plane_position_slide_per_frame', 'what': 'differs from iter_tiled_full_frame_data'},
                          site='compute_plane_position_slide_per_frame')
+            # independent statement: frame k of the wrapper sits at the affine image of its own pixel offset, in ITS focal plane
+            # (channels outermost, then planes, then the row-major grid)
+            for k_, a in enumerate(got2):
+                pl_ = (k_ // len(g)) % planes
+                wantp = affine(org, ori, sp, a[0] - 1, a[1] - 1, org[2] + pl_ * s)
+                if (a[1], a[0]) != g[k_ % len(g)] or not close(a[2:], wantp, exact):
+                    ctx.fail({**case, 'frame_index': k_}, {'helper': 'compute_plane_position_slide_per_frame',
+                                                           'what': 'plane position of a frame is not the transform of its offset in its focal plane',
+                                                           'got': list(a), 'want_position': list(wantp), 'focal_plane': pl_ + 1},
+                             site='compute_plane_position_slide_per_frame')
+                    break
+            if exact:
+                reqs.append(('slidePerFrame', {'channels': channels, 'planes': planes, 'tr': tr, 'tc': tc, 'R': R, 'C': C,
+                                               'geo': geo_json(org, ori, sp, org[2]), 'sbs': frac(s)}))
+                pending.append((case, 'compute_plane_position_slide_per_frame',
+                                ('ok', [[a[0], a[1]] + [frac(v) for v in a[2:]] for a in got2]), 'iter'))
             # the full-tiling test on real PlanePositionSequence objects: one (channel, plane) chunk is a grid; the whole list is
             # not (positions repeat) unless there is a single chunk; permuted / incomplete chunks are not
             chunk = pps[:len(g)]
